@@ -82,7 +82,20 @@ def check_per_sample_lists(prog: Program, res: Result, rule: str, quals: Iterabl
             twice = any(cfg.reachable_from(list(cfg.g.successors(p)), avoid=heads) & an for p in an)
             res.ob(rule, not twice, fi.qualname, f"`{nm}` appended at most once per iteration", f"`{nm}` can be appended twice in one iteration of the per-sample loop", f"{fi.module.relpath}:{lp.lineno}")
             inits = [s for s in astq.assignments_to(fn, nm) if not isinstance(s, ast.AugAssign)]
-            ok_init = len(inits) == 1 and isinstance(getattr(inits[0], "value", None), ast.List) and not inits[0].value.elts and not astq.enclosing_loops(inits[0])
+
+            def _init_value(st_):
+                """the value bound to nm by st_ (also through  a, b = [], [])"""
+                v_ = getattr(st_, "value", None)
+                t_ = st_.targets[0] if isinstance(st_, ast.Assign) and len(st_.targets) == 1 else None
+                if isinstance(t_, (ast.Tuple, ast.List)) and isinstance(v_, (ast.Tuple, ast.List)) and len(t_.elts) == len(v_.elts):
+                    for e_, x_ in zip(t_.elts, v_.elts):
+                        if isinstance(e_, ast.Name) and e_.id == nm:
+                            return x_
+                return v_
+
+            iv = _init_value(inits[0]) if len(inits) == 1 else None
+            ok_init = len(inits) == 1 and ((isinstance(iv, ast.List) and not iv.elts) or (isinstance(iv, ast.Call) and norm(iv.func) == "list" and not iv.args)) \
+                and not astq.enclosing_loops(inits[0])
             res.ob(rule, ok_init, fi.qualname, f"`{nm}` starts empty, outside the loop", f"`{nm}` is not initialised to an empty list exactly once before the per-sample loop", fi.where)
         params = set(fi.params)
         for lp in loops:
@@ -101,5 +114,39 @@ def check_per_sample_lists(prog: Program, res: Result, rule: str, quals: Iterabl
             res.ob(rule, not rebound, fi.qualname, "no parameter is re-bound from per-sample data inside the per-sample loop",
                    f"parameter(s) {rebound} are re-assigned inside the per-sample loop from data of the current sample: what is computed for one sample replaces the caller's value "
                    "for every later sample of the batch", f"{fi.module.relpath}:{lp.lineno}")
+    if floor is not None:
+        res.floor(rule, floor)
+
+
+def check_every_iteration_accumulates(prog: Program, res: Result, rule: str, quals: Iterable[str], floor: Optional[int] = None) -> None:
+    """The per-instance accumulation loops (maximum / sum over the instances of a frame): every iteration reaches the
+    statement that folds the instance into the returned accumulator.  An iteration that `continue`s first (say, because the
+    instance has SOME missing node) drops the instance's labelled parts from the target as well."""
+    n = 0
+    for q in quals:
+        fi = prog.func(q)
+        res.touch(fi)
+        fn = fi.node
+        rets = [r for r in walk_function(fn) if isinstance(r, ast.Return) and r.value is not None]
+        names = set().union(*[astq.names_in(r.value) for r in rets]) if rets else set()
+        cfg = CFG(fn)
+        found = False
+        for nm in sorted(names):
+            ups = [st for st in walk_function(fn) if isinstance(st, (ast.Assign, ast.AugAssign)) and astq.enclosing_loops(st)
+                   and any(isinstance(t, ast.Name) and t.id == nm for t in astq.stmt_targets(st))
+                   and (isinstance(st, ast.AugAssign) or nm in astq.names_in(st.value))]
+            if not ups:
+                continue
+            found = True
+            lp = astq.enclosing_loops(ups[0])[-1]
+            heads = cfg.nodes_of(lp)
+            enter = [m for h in heads for m in cfg.g.successors(h) if "true" in cfg.g[h][m]["labels"]]
+            un = {x for st in ups for x in cfg.nodes_of(st)}
+            w = cfg.must_pass(enter, heads, un, drop_edge=lambda a, b, labels: "exc" in labels)
+            n += 1
+            res.ob(rule, w is None, fi.qualname, f"every iteration folds its instance into `{nm}`",
+                   f"an iteration of the loop in {fi.name} can end without updating `{nm}` ({cfg.path_str(w) if w else ''}): the instance of that iteration contributes nothing, "
+                   "including the parts of it that are labelled", f"{fi.module.relpath}:{lp.lineno}")
+        res.ob(rule, found, fi.qualname, "accumulation loop found", f"{fi.name} no longer accumulates its result over a loop", fi.where)
     if floor is not None:
         res.floor(rule, floor)
